@@ -64,6 +64,11 @@ func (in *Interp) ctxCancel(s *ctxState, err, cause IfaceV) {
 	}
 	s.err = err
 	s.cause = cause
+	if in.race != nil {
+		// cancellation happens before whatever observes it (Err, a receive from Done)
+		in.raceRelease(s)
+		s.done.closeVC = vcJoin(vcCopy(s.done.closeVC), in.race.sync[s])
+	}
 	if !s.done.closed {
 		s.done.closed = true
 	}
@@ -138,6 +143,7 @@ func (in *Interp) ctxPollForeign(fr *frame) {
 func (in *Interp) ctxErr(fr *frame, s *ctxState) IfaceV {
 	in.ctxExpire()
 	if s.err.T != nil {
+		in.raceAcquire(s)
 		return s.err
 	}
 	if s.pstate != nil {
@@ -331,6 +337,11 @@ func init() {
 		return StructV{st.Const(0, 64), st.Const(0, 64), st.Const(0, 64), in.strConst("dev"), in.strConst("0.0.1-dev")}
 	}
 
+	// the no-op tracer: the context as it is and a span whose methods do nothing
+	n["(go.opentelemetry.io/otel/trace/noop.Tracer).Start"] = func(in *Interp, fr *frame, a []Value) Value {
+		t := in.world.namedType("go.opentelemetry.io/otel/trace/noop", "Span")
+		return TupleV{a[1], IfaceV{T: t, V: in.zero(t)}}
+	}
 	n["time.initLocal"] = func(in *Interp, fr *frame, a []Value) Value { return nil }
 	// verifClockAdvanceTo(unixMilli): the harness' virtual clock jumps forward (a blocked read
 	// returns when its deadline is reached)
